@@ -227,7 +227,9 @@ def run_probes():
             res["crashed"] = "signature table was not generated (translator failed)"
         else:
             sigs = json.load(open(sj))
-            probes = rp.gen_corpus(sigs)
+            rj = os.path.join(VERIF, "lean", "Gecs", "Gen", "refimpls.json")
+            ref_impls = json.load(open(rj)) if os.path.exists(rj) else []
+            probes = rp.gen_corpus(sigs, ref_impls)
             results, rc, err, wall = rp.run_corpus(probes, os.path.join(CACHE, "rustc-probes"), os.path.join(CACHE, "target-probes"), ENV)
             res.update({"results": results, "cargo_rc": rc, "wall_s": wall, "n": len(probes)})
             if not any(r.get("compiled") for r in results):
